@@ -291,7 +291,7 @@ WIDE_INT = ["int64", "uint64", "int32", "uint32", "int64", "uint64", "float64", 
 @st.composite
 def binary_case(draw, tier, near=False):
     n = draw(st.one_of(st.integers(1, 8), st.integers(1, 30 if tier == "quick" else 80)))
-    pool = WIDE_INT if near else DTS + ["uint64", "uint16"]
+    pool = WIDE_INT if near else DTS
     dta, dtb = draw(st.sampled_from(pool)), draw(st.sampled_from(pool))
     ca, va = draw(operand(tier, dta, n))
     mode = draw(st.integers(0, 4))
